@@ -40,7 +40,7 @@ def run(ctx):
     ctx.guarded("R12.2", "append", lambda: append(ctx))
     ctx.guarded("R12.3", "move", lambda: move(ctx))
     ctx.guarded("R12.4", "apis", lambda: apis(ctx))
-    ctx.guarded("R12.5", "mutators", lambda: fifo(ctx, "R12.5", "files", {"extend", "drain", "clear", "append", "extend_from_slice", "take", "push"}, floor=2))
+    ctx.guarded("R12.5", "mutators", lambda: fifo(ctx, "R12.5", "files", {"extend", "drain", "clear", "append", "extend_from_slice", "take", "push", "reserve", "reserve_exact"}, floor=2))
 
 
 def wrap(ctx):
@@ -170,7 +170,7 @@ def loop_form(ctx, fn, lv, files, R, fds):
     # nothing else changes the vector (order!)
     for l in lv:
         for e in l.events:
-            if e[0] == "call" and last_seg(e[3]) != "push":
+            if e[0] == "call" and last_seg(e[3]) not in ("push", "reserve", "reserve_exact"):      # reserving capacity changes no element
                 for a in e[4][2]:
                     if a[0] == "ref" and a[2] and norm(_strip_mut(a[1])) == base:
                         return False, "the vector is also changed by %s" % last_seg(e[3])
